@@ -667,6 +667,8 @@ fn run_trace(insts: &[Inst], steps: &[Step], weak: bool) -> Result<(u64, bool), 
     let mut compared = 0u64;
     let mut interesting = false;
     let mut prev_q: Vec<bool> = vec![false; insts.len()];
+    // TON with a changing PT: (time of the previous call with IN = TRUE, time IN has been TRUE over consecutive calls)
+    let mut held: Vec<(Option<i128>, i128)> = vec![(None, 0); insts.len()];
     for (si, st) in steps.iter().enumerate() {
         h.advance_time(Duration::from_nanos(st.dt));
         now += st.dt as i128;
@@ -674,6 +676,9 @@ fn run_trace(insts: &[Inst], steps: &[Step], weak: bool) -> Result<(u64, bool), 
             set_inputs(&mut h, k, it, &st.inputs[k]);
             if st.inputs[k].call {
                 models[k].call(it, &st.inputs[k], now);
+                // the time IN has been TRUE over consecutive calls, by the property's attribution rule (the interval before a call
+                // counts for the input value seen at that call): the model's accumulator, which does not depend on PT
+                held[k] = (Some(now), models[k].acc);
             }
         }
         let res = h.cycle();
@@ -682,6 +687,22 @@ fn run_trace(insts: &[Inst], steps: &[Step], weak: bool) -> Result<(u64, bool), 
         }
         for (k, it) in insts.iter().enumerate() {
             compare(&h, k, it, &models[k], weak).map_err(|(c, d)| (c, format!("step {si} instance {k} ({}): {d}", it.type_name), si))?;
+            if weak && matches!(it.kind, Kind::Ton) && st.inputs[k].call {
+                // PT may change between calls: the exact model is not applied, but what the property states for every trace is:
+                // ET never exceeds (the current) PT, and Q is TRUE only while IN is TRUE and has been TRUE for at least PT
+                let q = get_bool(&h, &format!("q_{k}")).map_err(|e| ("Ton|output-type".to_string(), e, si))?;
+                let et = get_time(&h, &format!("et_{k}"), it.ltime).map_err(|e| ("Ton|output-type".to_string(), e, si))?;
+                let pt = st.inputs[k].pt.max(0) as i128;
+                if (et as i128) > pt {
+                    return Err(("Ton|ET-exceeds-PT".to_string(), format!("step {si} instance {k}: ET = {et} ns with PT = {pt} ns"), si));
+                }
+                if q && !st.inputs[k].b[0] {
+                    return Err(("Ton|Q-without-IN".to_string(), format!("step {si} instance {k}: Q is TRUE while IN is FALSE"), si));
+                }
+                if q && held[k].1 < pt {
+                    return Err(("Ton|Q-before-PT".to_string(), format!("step {si} instance {k}: Q is TRUE although IN has been TRUE for {} ns only, PT = {pt} ns", held[k].1), si));
+                }
+            }
             compared += 1;
             let q = models[k].q || models[k].qu;
             if q != prev_q[k] {
@@ -821,7 +842,7 @@ pub fn run(sh: &mut Shard) {
         i += 1;
         let mut r = rng.fork(i);
         let insts = gen_insts(&mut r);
-        let weak = r.chance(1, 12);
+        let weak = r.chance(1, 6);
         let steps = gen_trace(&mut r, &insts, weak);
         one(sh, insts, steps, weak);
     }
